@@ -208,7 +208,7 @@ def mutate(rng, img, n):
     out = []
     for _ in range(n):
         b = bytearray(img)
-        k = rng.randrange(8)
+        k = rng.randrange(9)
         if k == 0 and b:
             b = b[:rng.choice([0, 1, 4, 8, 13, 14, 15, 21, 22, 23, rng.randrange(len(b) + 1), max(0, len(b) - 1), max(0, len(b) - 2)])]
         elif k == 1 and b:
@@ -223,9 +223,48 @@ def mutate(rng, img, n):
             i = rng.randrange(len(b)); b[i:i] = bytes(rng.choice([0xFF, 0x81, 0x80, 0xF0, 0x90]) for _ in range(rng.choice([1, 2, 5])))
         elif k == 6 and len(b) > 30:
             i = rng.randrange(22, len(b)); del b[i:i + rng.choice([1, 2, 3])]
-        else:
+        elif k == 7:
             b += bytes(rng.randrange(256) for _ in range(rng.choice([1, 3, 20])))
+        else:
+            # the length of a meta / SysEx event becomes a long variable-length number
+            pos = [i for i in range(22, len(b) - 2) if b[i] in (0xFF, 0xF0, 0xF7)]
+            if pos:
+                i = rng.choice(pos) + (2 if b[rng.choice(pos)] == 0xFF else 1)
+                i = min(i, len(b))
+                b[i:i + 1] = big_varlen(rng.choice([2**32, 2**63, 2**64 - rng.randrange(1, 64), 2**64 + 5, 0xFFFFFFF0]), rng.choice([None, 10]))
         out.append(bytes(b))
+    return out
+
+
+def big_varlen(value, nbytes=None):
+    """variable-length quantity with as many bytes as asked (more than 4 is outside the SMF standard, the parser takes any number)"""
+    out = [value & 0x7F]
+    value >>= 7
+    while value or (nbytes and len(out) < nbytes):
+        out.append((value & 0x7F) | 0x80)
+        value >>= 7
+    return bytes(reversed(out))
+
+
+def special_cases(rng=None):
+    """systematic files around the places where the parser trusts a number from the file: event lengths of up to ten bytes, meta types that
+    collide with the sequencer's internal event codes (with and without payload), many device names, huge delta times"""
+    out = []
+    note = b"\x00\x90\x3c\x40\x10\x80\x3c\x00"
+    eot = b"\x00\xff\x2f\x00"
+    for v in (0x7F, 0x80, 0x3FFF, 0x0FFFFFFF, 0x10000000, 0xFFFFFFFF, 2**32, 2**63 - 1, 2**63, 2**64 - 16, 2**64 - 1, 2**64, 2**70 - 3):
+        for lead in (b"\xff\x01", b"\xff\x06", b"\xf0", b"\xf7", b"\xff\x51", b"\xff\x09"):
+            out.append(smf(0, 96, [note + b"\x00" + lead + big_varlen(v) + b"abc" + eot]))
+        out.append(smf(0, 96, [b"\x00\xff\x01" + b"\x80" * 12 + b"\x03abc" + note + eot]))          # padded length (leading 0x80 bytes)
+        out.append(smf(1, 96, [note + eot, big_varlen(v) + b"\x90\x40\x40" + eot]))                    # as a delta time
+    for code in range(0xE0, 0xE9):
+        for n in (0, 1, 2, 3):
+            body = note + b"\x08\xff" + bytes([code, n]) + bytes([2, 1, 0][:n]) + b"\x08\x90\x3e\x40\x10\x80\x3e\x00" + b"\x08\xff" + bytes([code, n]) + bytes([0, 5, 9][:n]) + eot
+            out.append(smf(0, 96, [body]))
+    for n in (15, 16, 17, 40, 300):
+        t = b"".join(b"\x00\xff\x09" + big_varlen(len(b"dev%d" % i)) + (b"dev%d" % i) for i in range(n)) + note + eot
+        out.append(smf(0, 96, [t]))
+        out.append(smf(1, 96, [t, b"\x00\xff\x09\x01Z" + note + eot]))
     return out
 
 
